@@ -2839,9 +2839,13 @@ class _Simu(_IObserver, _params.Updatable, ABC):
                     eval_n = np.zeros(Nn, dtype=float)
                     eval_n[nodes] = values[u]
                     eval_e = eval_n[connect]  # (Ne, nPe)
+                    # interpolate the nodal values on gauss points (Ne, nPg)
+                    eval_e_p = np.einsum(
+                        "en,pn->ep", eval_e, N_pg[:, 0, :], optimize="optimal"
+                    )
                     # integrate the elements (Ne, nPg, nPe)
                     values_e_p = np.einsum(
-                        "ep,en,pin->epn", wJ_e_pg, eval_e, N_pg, optimize="optimal"
+                        "ep,ep,pin->epn", wJ_e_pg, eval_e_p, N_pg, optimize="optimal"
                     )
 
                 # set calculated (sum on integration points) values and dofs
